@@ -683,3 +683,631 @@ theorem facts_config_wiring :
   decide
 
 end Swat4.C16
+
+
+/-! ## progress: every chain of probes for one mark ends (`probe_progress`) -/
+
+namespace Swat4.C16.Progress
+open Swat4 Swat4.UC Std Swat4.C16 Swat4.C16.Strict
+
+/-! ### sums over lists -/
+
+def sumOf {α : Type} (f : α → Nat) (l : List α) : Nat := (l.map f).sum
+
+theorem sumOf_nil {α : Type} (f : α → Nat) : sumOf f [] = 0 := rfl
+theorem sumOf_cons {α : Type} (f : α → Nat) (x : α) (l : List α) : sumOf f (x :: l) = f x + sumOf f l := by
+  simp [sumOf]
+theorem sumOf_append {α : Type} (f : α → Nat) (l1 l2 : List α) : sumOf f (l1 ++ l2) = sumOf f l1 + sumOf f l2 := by
+  simp [sumOf]
+theorem sumOf_map {α β : Type} (f : β → Nat) (h : α → β) (l : List α) : sumOf f (l.map h) = sumOf (fun x => f (h x)) l := by
+  simp [sumOf, Function.comp_def]
+
+theorem sumOf_perm {α : Type} (f : α → Nat) {l1 l2 : List α} (h : l1.Perm l2) : sumOf f l1 = sumOf f l2 := by
+  induction h with
+  | nil => rfl
+  | cons x _ ih => rw [sumOf_cons, sumOf_cons, ih]
+  | swap x y l => simp only [sumOf_cons]; omega
+  | trans _ _ ih1 ih2 => exact ih1.trans ih2
+
+theorem sumOf_filter_split {α : Type} (f : α → Nat) (p : α → Bool) (l : List α) :
+    sumOf f l = sumOf f (l.filter p) + sumOf f (l.filter fun x => !p x) := by
+  induction l with
+  | nil => rfl
+  | cons x t ih =>
+    cases hp : p x
+    · simp only [List.filter_cons, hp, Bool.false_eq_true, if_false, Bool.not_false, if_true, sumOf_cons]; omega
+    · simp only [List.filter_cons, hp, if_true, Bool.not_true, Bool.false_eq_true, if_false, sumOf_cons]; omega
+
+theorem sumOf_le {α : Type} (f g : α → Nat) (l : List α) (h : ∀ x ∈ l, f x ≤ g x) : sumOf f l ≤ sumOf g l := by
+  induction l with
+  | nil => exact Nat.le_refl _
+  | cons x t ih =>
+    rw [sumOf_cons, sumOf_cons]
+    have := h x (List.mem_cons_self)
+    have := ih (fun y hy => h y (List.mem_cons_of_mem _ hy))
+    omega
+
+theorem sumOf_eq_zero {α : Type} (f : α → Nat) (l : List α) (h : sumOf f l = 0) : ∀ x ∈ l, f x = 0 := by
+  induction l with
+  | nil => intro x hx; cases hx
+  | cons y t ih =>
+    rw [sumOf_cons] at h
+    intro x hx
+    rcases List.mem_cons.1 hx with rfl | hx
+    · omega
+    · exact ih (by omega) x hx
+
+theorem sumOf_zero {α : Type} (l : List α) : sumOf (fun _ : α => 0) l = 0 := by
+  induction l with
+  | nil => rfl
+  | cons x t ih => rw [sumOf_cons, ih]
+
+theorem sumOf_pos {α : Type} (f : α → Nat) (l : List α) (x : α) (hx : x ∈ l) (hf : 0 < f x) : 0 < sumOf f l := by
+  induction l with
+  | nil => cases hx
+  | cons y t ih =>
+    rw [sumOf_cons]
+    rcases List.mem_cons.1 hx with rfl | hx
+    · omega
+    · have := ih hx; omega
+
+/-! ### the potential of a mark -/
+
+/-- the attempts a probe still has: this one, and one per retry left -/
+def budget (p : Probe) : Nat := (p.maxRetries - p.retries).toNat + 1
+
+/-- is `p` a probe of goal `g` for address `a`? -/
+def forAG (a : Addr) (g : Goal) (p : Probe) : Bool := decide (p.addr = a ∧ p.goal = g)
+
+/-- weight of a probe: its budget if it is for `(a, g)` -/
+def wP (a : Addr) (g : Goal) (p : Probe) : Nat := if forAG a g p then budget p else 0
+/-- `1` if the probe is for `(a, g)` -/
+def cP (a : Addr) (g : Goal) (p : Probe) : Nat := if forAG a g p then 1 else 0
+
+/-- **the potential of the mark `(a, g)`**: the attempts all queued probes for `(a, g)` still have, together -/
+def pot (a : Addr) (g : Goal) (q : List QItem) : Nat := sumOf (fun x => wP a g x.probe) q
+/-- the number of queued probes for `(a, g)` -/
+def cnt (a : Addr) (g : Goal) (q : List QItem) : Nat := sumOf (fun x => cP a g x.probe) q
+
+theorem cP_le_wP (a : Addr) (g : Goal) (p : Probe) : cP a g p ≤ wP a g p := by
+  unfold cP wP budget; split <;> omega
+
+/-- the re-queued probe has one attempt less -/
+theorem wP_inc (a : Addr) (g : Goal) (p : Probe) (h : p.retries < p.maxRetries) :
+    wP a g { p with retries := p.retries + 1 } + cP a g p = wP a g p := by
+  have hf : forAG a g { p with retries := p.retries + 1 } = forAG a g p := rfl
+  unfold wP cP
+  rw [hf]
+  cases forAG a g p
+  · rfl
+  · simp only [if_true, budget]; omega
+
+theorem pot_zero_iff_none (a : Addr) (g : Goal) (q : List QItem) (h : pot a g q = 0) :
+    ∀ x ∈ q, ¬ (x.probe.addr = a ∧ x.probe.goal = g) := by
+  intro x hx hag
+  have := sumOf_eq_zero _ q h x hx
+  simp only [wP, forAG, hag, and_self, decide_true, if_true, budget] at this
+  omega
+
+/-! ### `PopMany` when everything ready fits into the batch -/
+
+theorem readySorted_nil_of {q : List QItem} {now : Int} (h : ∀ x ∈ q, ¬ x.ready ≤ now) :
+    AbsState.readySorted q now = [] := by
+  cases hr : AbsState.readySorted q now with
+  | nil => rfl
+  | cons y t =>
+    have : y ∈ AbsState.readySorted q now := by rw [hr]; exact List.mem_cons_self
+    exact absurd (mem_readySorted.1 this).2 (h y (mem_readySorted.1 this).1)
+
+theorem dropBatch_ready {q : List QItem} {now : Int} (hinj : IdInj q) :
+    dropBatch q (AbsState.readySorted q now) = q.filter fun x => !decide (x.ready ≤ now) := by
+  unfold dropBatch
+  apply List.filter_congr
+  intro x hx
+  congr 1
+  by_cases hr : x.ready ≤ now
+  · simp only [hr, decide_true]
+    rw [List.any_eq_true]
+    exact ⟨x, mem_readySorted.2 ⟨hx, hr⟩, by simp⟩
+  · simp only [hr, decide_false]
+    cases hany : (AbsState.readySorted q now).any fun b => b.id == x.id with
+    | false => rfl
+    | true =>
+      rw [List.any_eq_true] at hany
+      obtain ⟨b, hb, hid⟩ := hany
+      have hb' := mem_readySorted.1 hb
+      have : b = x := hinj b hb'.1 x hx (by simpa using hid)
+      subst this
+      exact absurd hb'.2 hr
+
+theorem popManyLoop_fit (now : Int) (N : Nat) (q : List QItem) (fuel : Nat) (hf : q.length ≤ fuel) (hinj : IdInj q)
+    (hN : 0 < N) (hfit : (q.filter fun x => x.ready ≤ now).length ≤ N) :
+    (AbsState.popManyLoop now N (fuel + 1) q [] 0).1 = (q.filter fun x => !decide (x.ready ≤ now)) ∧
+    (AbsState.popManyLoop now N (fuel + 1) q [] 0).2.1 = (keptOf (AbsState.readySorted q now) now).map (·.probe) := by
+  have hRlen : (AbsState.readySorted q now).length ≤ N := by rw [(readySorted_perm q now).length_eq]; exact hfit
+  have htake : (AbsState.readySorted q now).take (N - ([] : List Probe).length) = AbsState.readySorted q now := by
+    simp only [List.length_nil, Nat.sub_zero]; exact List.take_of_length_le hRlen
+  rw [popManyLoop_succ, htake]
+  have h0 : ¬ ([] : List Probe).length ≥ N := by simp only [List.length_nil]; omega
+  rw [if_neg h0]
+  cases hR : AbsState.readySorted q now with
+  | nil =>
+    simp only [List.isEmpty_nil, if_true, keptOf, List.filter_nil, List.map_nil, and_true]
+    symm
+    rw [List.filter_eq_self]
+    intro x hx
+    have : ¬ x.ready ≤ now := fun hr => by
+      have := mem_readySorted.2 ⟨hx, hr⟩
+      rw [hR] at this; cases this
+    simp [this]
+  | cons y t =>
+    simp only [List.isEmpty_cons, Bool.false_eq_true, if_false, List.nil_append, Nat.zero_add]
+    rw [← hR, dropBatch_ready hinj]
+    have hq1 : 1 ≤ q.length := by
+      have : y ∈ AbsState.readySorted q now := by rw [hR]; exact List.mem_cons_self
+      exact List.length_pos_of_mem (mem_readySorted.1 this).1
+    obtain ⟨f, rfl⟩ : ∃ f, fuel = f + 1 := ⟨fuel - 1, by omega⟩
+    rw [popManyLoop_succ]
+    have hnil : AbsState.readySorted (q.filter fun x => !decide (x.ready ≤ now)) now = [] := by
+      apply readySorted_nil_of
+      intro x hx
+      have := (List.mem_filter.1 hx).2
+      simpa using this
+    rw [hnil]
+    simp only [List.take_nil, List.isEmpty_nil, if_true]
+    split <;> exact ⟨rfl, rfl⟩
+
+/-- **`PopMany(n)` when all the ready items fit**: with distinct ids, `0 < n` and at most `n` items ready at `now`, the
+call takes exactly the ready items out of the queue and returns the probes of those that have not expired -/
+theorem popMany_fit (s : AbsState) (now : Int) (n : Int) (hinj : IdInj s.queue) (hn : 0 < n)
+    (hfit : (s.queue.filter fun x => x.ready ≤ now).length ≤ n.toNat) :
+    (s.popMany now n).1.queue = (s.queue.filter fun x => !decide (x.ready ≤ now)) ∧
+    (s.popMany now n).2.1 = (keptOf (AbsState.readySorted s.queue now) now).map (·.probe) ∧
+    (s.popMany now n).1.nextId = s.nextId ∧ (s.popMany now n).1.servers = s.servers := by
+  have h := popManyLoop_fit now n.toNat s.queue s.queue.length (Nat.le_refl _) hinj (by omega) hfit
+  unfold AbsState.popMany
+  rw [if_neg (by omega)]
+  exact ⟨h.1, h.2, rfl, rfl⟩
+
+/-! ### one `probeserver.Execute`: what it does to the queue -/
+
+theorem update_nextId (s : AbsState) (now : Int) (svr : Server) (res : Resolver) : (s.update now svr res).1.nextId = s.nextId := by
+  unfold AbsState.update
+  cases s.getRow svr.addr with
+  | none => rfl
+  | some ex =>
+    dsimp only
+    split
+    · cases res ex.svr <;> rfl
+    · rfl
+
+/-- the queue after one fault-free `probeserver.Execute`: unchanged, or — exactly when the probe failed with retries left
+and the server is stored — the same probe with one more retry appended, non-expiring, ready after the backoff -/
+theorem probe_run_queue (prb : Probe) (oc : Option ProbeResult) (s : AbsState) (now : Int) :
+    (((UC.probe prb oc).run s now).1.queue = s.queue ∧ ((UC.probe prb oc).run s now).1.nextId = s.nextId) ∨
+    (oc = none ∧ prb.retries < prb.maxRetries ∧ (∃ row, s.servers[prb.addr.key]? = some row) ∧
+      ((UC.probe prb oc).run s now).1.queue =
+        s.queue ++ [⟨s.nextId, { prb with retries := prb.retries + 1 }, now + second * expFloor (prb.retries + 1), none⟩] ∧
+      ((UC.probe prb oc).run s now).1.nextId = s.nextId + 1) := by
+  cases hrow : s.servers[prb.addr.key]? with
+  | none => rw [probe_run_none _ _ _ _ hrow]; exact Or.inl ⟨rfl, rfl⟩
+  | some ex =>
+    have hg : s.getRow prb.addr = some ex := hrow
+    cases oc with
+    | some res =>
+      left
+      simp only [UC.probe, Prog.run_call, Call.exec, AbsState.get, hg]
+      split <;> simp only [Prog.run_pure, update_queue, update_nextId, and_self]
+    | none =>
+      by_cases hout : prb.retries < prb.maxRetries
+      · right
+        refine ⟨rfl, hout, ⟨ex, rfl⟩, ?_⟩
+        have hout' : ¬ prb.retries ≥ prb.maxRetries := by omega
+        simp only [UC.probe, Prog.run_call, Call.exec, AbsState.get, hg, probeRetry, Probe.incRetries, hout', if_false,
+          Bool.not_true]
+        simp only [Bool.false_eq_true, if_false, Prog.run_call, Call.exec]
+        split <;> simp only [Prog.run_pure, update_queue, update_nextId, AbsState.enqueue, Bool.false_eq_true, if_false, and_self]
+      · left
+        have hout' : prb.retries ≥ prb.maxRetries := by omega
+        simp only [UC.probe, Prog.run_call, Call.exec, AbsState.get, hg, probeRetry, Probe.incRetries, hout', if_true,
+          Bool.not_false, probeFail]
+        split <;> simp only [Prog.run_pure, update_queue, update_nextId, and_self]
+
+/-- one handled probe pays one attempt: the potential of `(a, g)` after the run, plus one if the probe was for `(a, g)`,
+is at most the potential before plus the probe's own weight -/
+theorem probe_run_pot (a : Addr) (g : Goal) (prb : Probe) (oc : Option ProbeResult) (s : AbsState) (now : Int) :
+    pot a g ((UC.probe prb oc).run s now).1.queue + cP a g prb ≤ pot a g s.queue + wP a g prb := by
+  rcases probe_run_queue prb oc s now with ⟨hq, _⟩ | ⟨_, hlt, _, hq, _⟩
+  · rw [hq]; have := cP_le_wP a g prb; omega
+  · rw [hq]
+    unfold pot
+    rw [sumOf_append, sumOf_cons, sumOf_nil]
+    have := wP_inc a g prb hlt
+    simp only at this ⊢
+    omega
+
+/-- the runner over a batch: every handled probe for `(a, g)` pays one attempt -/
+theorem probeEach_pot (a : Addr) (g : Goal) (oc : Probe → Option ProbeResult) (now : Int) :
+    ∀ (ps : List Probe) (s : AbsState),
+      pot a g ((probeEach oc ps).run s now).1.queue + sumOf (cP a g) ps ≤ pot a g s.queue + sumOf (wP a g) ps := by
+  intro ps
+  induction ps with
+  | nil => intro s; simp [probeEach, sumOf_nil]
+  | cons p rest ih =>
+    intro s
+    have hrun : (probeEach oc (p :: rest)).run s now =
+        (probeEach oc rest).run ((UC.probe p (oc p)).run s now).1 now := by
+      show ((UC.probe p (oc p)).bind fun _ => probeEach oc rest).run s now = _
+      rw [Prog.run_bind]
+    rw [hrun, sumOf_cons, sumOf_cons]
+    have h1 := probe_run_pot a g p (oc p) s now
+    have h2 := ih ((UC.probe p (oc p)).run s now).1
+    omega
+
+/-! ### one batch -/
+
+/-- the scheduling hypotheses on one batch, for the mark `(a, g)`: the batch size is positive and at least the number of
+items ready at the batch's clock (so the pop takes them all), the order the runner handles the batch in is a
+permutation of it, and every queued probe for `(a, g)` is ready at the batch's clock -/
+structure Fair (a : Addr) (g : Goal) (n : Int) (order : List Probe → List Probe) (now : Int) (s : AbsState) : Prop where
+  npos : 0 < n
+  fits : (s.queue.filter fun x => x.ready ≤ now).length ≤ n.toNat
+  perm : ∀ ps, (order ps).Perm ps
+  ready : ∀ x ∈ s.queue, x.probe.addr = a → x.probe.goal = g → x.ready ≤ now
+
+/-- **one fair batch pays one attempt per queued probe for `(a, g)`**: after a fault-free prober batch, the potential of
+`(a, g)` plus the number of probes for `(a, g)` that were queued is at most the potential before -/
+theorem batch_pot (a : Addr) (g : Goal) (n : Int) (oc : Probe → Option ProbeResult) (order : List Probe → List Probe)
+    (s : AbsState) (now : Int) (hinj : IdInj s.queue) (hf : Fair a g n order now s) :
+    pot a g ((proberBatch n oc order).run s now).1.queue + cnt a g s.queue ≤ pot a g s.queue := by
+  obtain ⟨hq, hgot, _, _⟩ := popMany_fit s now n hinj hf.npos hf.fits
+  have hrun : (proberBatch n oc order).run s now =
+      (probeEach oc (order (s.popMany now n).2.1)).run (s.popMany now n).1 now := by
+    simp only [proberBatch, Prog.run_call, Call.exec]
+  rw [hrun]
+  have h1 := probeEach_pot a g oc now (order (s.popMany now n).2.1) (s.popMany now n).1
+  have e1 : sumOf (cP a g) (order (s.popMany now n).2.1) =
+      sumOf (fun x : QItem => cP a g x.probe) (keptOf (AbsState.readySorted s.queue now) now) := by
+    rw [sumOf_perm _ (hf.perm _), hgot, sumOf_map]
+  have e2 : sumOf (wP a g) (order (s.popMany now n).2.1) =
+      sumOf (fun x : QItem => wP a g x.probe) (keptOf (AbsState.readySorted s.queue now) now) := by
+    rw [sumOf_perm _ (hf.perm _), hgot, sumOf_map]
+  have e3 : pot a g (s.popMany now n).1.queue = pot a g (s.queue.filter fun x => !decide (x.ready ≤ now)) := by rw [hq]
+  rw [e1, e2, e3] at h1
+  -- the queue splits into ready and not ready; the ready part into kept and expired
+  have hsplit := sumOf_filter_split (fun x : QItem => wP a g x.probe) (fun x => decide (x.ready ≤ now)) s.queue
+  have hR := sumOf_perm (fun x : QItem => wP a g x.probe) (readySorted_perm s.queue now)
+  have hRk := sumOf_filter_split (fun x : QItem => wP a g x.probe) (fun x => !x.expired now) (AbsState.readySorted s.queue now)
+  have hcsplit := sumOf_filter_split (fun x : QItem => cP a g x.probe) (fun x => decide (x.ready ≤ now)) s.queue
+  have hcR := sumOf_perm (fun x : QItem => cP a g x.probe) (readySorted_perm s.queue now)
+  have hcRk := sumOf_filter_split (fun x : QItem => cP a g x.probe) (fun x => !x.expired now) (AbsState.readySorted s.queue now)
+  have hexp := sumOf_le (fun x : QItem => cP a g x.probe) (fun x : QItem => wP a g x.probe)
+    ((AbsState.readySorted s.queue now).filter fun x => !!x.expired now) (fun x _ => cP_le_wP a g x.probe)
+  -- nothing for `(a, g)` is left among the items that are not ready
+  have hnr : sumOf (fun x : QItem => cP a g x.probe) (s.queue.filter fun x => !decide (x.ready ≤ now)) = 0 := by
+    have : ∀ x ∈ (s.queue.filter fun x => !decide (x.ready ≤ now)), (fun x : QItem => cP a g x.probe) x ≤ (fun _ => 0) x := by
+      intro x hx
+      obtain ⟨hxq, hnr⟩ := List.mem_filter.1 hx
+      have hnr' : ¬ x.ready ≤ now := by simpa using hnr
+      show cP a g x.probe ≤ 0
+      unfold cP forAG
+      split
+      · rename_i h
+        have h' : x.probe.addr = a ∧ x.probe.goal = g := by simpa using h
+        exact absurd (hf.ready x hxq h'.1 h'.2) hnr'
+      · exact Nat.le_refl _
+    have h0 := sumOf_le _ _ _ this
+    have := sumOf_zero (s.queue.filter fun x : QItem => !decide (x.ready ≤ now))
+    omega
+  unfold pot cnt keptOf at *
+  omega
+
+/-! ### the invariants a batch keeps -/
+
+/-- the queue is well formed: ids identify items and are below the counter, probe addresses are valid -/
+structure QOk (s : AbsState) : Prop where
+  inj : IdInj s.queue
+  fresh : ∀ x ∈ s.queue, x.id < s.nextId
+  ports : ∀ x ∈ s.queue, x.probe.addr.PortOk
+
+theorem probe_run_qok (prb : Probe) (oc : Option ProbeResult) (s : AbsState) (now : Int) (h : QOk s) (hp : prb.addr.PortOk) :
+    QOk ((UC.probe prb oc).run s now).1 := by
+  rcases probe_run_queue prb oc s now with ⟨hq, hn⟩ | ⟨_, _, _, hq, hn⟩
+  · exact ⟨by rw [hq]; exact h.inj, by rw [hq, hn]; exact h.fresh, by rw [hq]; exact h.ports⟩
+  · refine ⟨?_, ?_, ?_⟩
+    · rw [hq]
+      intro x hx y hy hxy
+      rcases List.mem_append.1 hx with hx | hx <;> rcases List.mem_append.1 hy with hy | hy
+      · exact h.inj x hx y hy hxy
+      · have := h.fresh x hx
+        rw [List.mem_singleton.1 hy] at hxy
+        simp only at hxy
+        omega
+      · have := h.fresh y hy
+        rw [List.mem_singleton.1 hx] at hxy
+        simp only at hxy
+        omega
+      · rw [List.mem_singleton.1 hx, List.mem_singleton.1 hy]
+    · rw [hq, hn]
+      intro x hx
+      rcases List.mem_append.1 hx with hx | hx
+      · have := h.fresh x hx; omega
+      · rw [List.mem_singleton.1 hx]; simp only; omega
+    · rw [hq]
+      intro x hx
+      rcases List.mem_append.1 hx with hx | hx
+      · exact h.ports x hx
+      · rw [List.mem_singleton.1 hx]; exact hp
+
+theorem probeEach_qok (oc : Probe → Option ProbeResult) (now : Int) :
+    ∀ (ps : List Probe) (s : AbsState), QOk s → (∀ p ∈ ps, p.addr.PortOk) → QOk ((probeEach oc ps).run s now).1 := by
+  intro ps
+  induction ps with
+  | nil => intro s h _; exact h
+  | cons p rest ih =>
+    intro s h hp
+    have hrun : (probeEach oc (p :: rest)).run s now =
+        (probeEach oc rest).run ((UC.probe p (oc p)).run s now).1 now := by
+      show ((UC.probe p (oc p)).bind fun _ => probeEach oc rest).run s now = _
+      rw [Prog.run_bind]
+    rw [hrun]
+    exact ih _ (probe_run_qok p (oc p) s now h (hp p List.mem_cons_self)) (fun q hq => hp q (List.mem_cons_of_mem _ hq))
+
+theorem popMany_nextId (s : AbsState) (now : Int) (n : Int) : (s.popMany now n).1.nextId = s.nextId := by
+  unfold AbsState.popMany; split <;> rfl
+
+theorem batch_qok (n : Int) (oc : Probe → Option ProbeResult) (order : List Probe → List Probe)
+    (horder : ∀ ps, (order ps).Perm ps) (s : AbsState) (now : Int) (h : QOk s) :
+    QOk ((proberBatch n oc order).run s now).1 := by
+  have hcov := popMany_covers s now n h.inj
+  have hrun : (proberBatch n oc order).run s now =
+      (probeEach oc (order (s.popMany now n).2.1)).run (s.popMany now n).1 now := by
+    simp only [proberBatch, Prog.run_call, Call.exec]
+  rw [hrun]
+  refine probeEach_qok oc now _ _ ⟨?_, ?_, ?_⟩ ?_
+  · intro x hx y hy hxy; exact h.inj x (hcov.2.1 x hx) y (hcov.2.1 y hy) hxy
+  · intro x hx; rw [popMany_nextId]; exact h.fresh x (hcov.2.1 x hx)
+  · intro x hx; exact h.ports x (hcov.2.1 x hx)
+  · intro p hp
+    obtain ⟨x, hx, rfl⟩ := hcov.2.2 p ((horder _).mem_iff.1 hp)
+    exact h.ports x hx
+
+/-! ### a sequence of batches -/
+
+/-- one prober batch: size, network outcome per probe, handling order, clock -/
+structure Batch where
+  n : Int
+  oc : Probe → Option ProbeResult
+  order : List Probe → List Probe
+  now : Int
+
+def Batch.run (b : Batch) (s : AbsState) : AbsState := ((proberBatch b.n b.oc b.order).run s b.now).1
+
+/-- the store after a sequence of fault-free prober batches, nothing else running in between -/
+def runBatches : List Batch → AbsState → AbsState
+  | [], s => s
+  | b :: bs, s => runBatches bs (b.run s)
+
+/-- every batch of the sequence is `Fair` for `(a, g)` in the state it starts from -/
+def FairRun (a : Addr) (g : Goal) : List Batch → AbsState → Prop
+  | [], _ => True
+  | b :: bs, s => Fair a g b.n b.order b.now s ∧ FairRun a g bs (b.run s)
+
+/-- the store invariants a batch keeps: `BackedStrict`, rows well keyed with valid addresses, well-formed queue -/
+structure WF (s : AbsState) : Prop where
+  backed : BackedStrict s
+  keyed : KeyedOk s
+  qok : QOk s
+
+theorem batch_wf (b : Batch) (s : AbsState) (h : WF s) (hperm : ∀ ps, (b.order ps).Perm ps) : WF (b.run s) := by
+  have := Strict.pop_complete_backed b.n b.oc b.order (fun ps p => (hperm ps).mem_iff) s b.now h.backed h.keyed h.qok.inj h.qok.ports
+  exact ⟨this.1, this.2, batch_qok b.n b.oc b.order hperm s b.now h.qok⟩
+
+theorem runBatches_pot (a : Addr) (g : Goal) : ∀ (bs : List Batch) (s : AbsState), WF s → FairRun a g bs s →
+    WF (runBatches bs s) ∧ pot a g (runBatches bs s).queue ≤ pot a g s.queue - bs.length := by
+  intro bs
+  induction bs with
+  | nil => intro s h _; exact ⟨h, by simp [runBatches]⟩
+  | cons b bs ih =>
+    intro s h hfair
+    obtain ⟨hf, hrest⟩ := hfair
+    have hwf := batch_wf b s h hf.perm
+    obtain ⟨h1, h2⟩ := ih (b.run s) hwf hrest
+    refine ⟨h1, ?_⟩
+    have hb := batch_pot a g b.n b.oc b.order s b.now h.qok.inj hf
+    have hb' : pot a g (b.run s).queue + cnt a g s.queue ≤ pot a g s.queue := hb
+    simp only [runBatches, List.length_cons]
+    -- if anything for `(a, g)` is queued the batch pays at least one attempt
+    by_cases h0 : pot a g s.queue = 0
+    · omega
+    · have hc : 0 < cnt a g s.queue := by
+        by_cases hc : cnt a g s.queue = 0
+        · exfalso
+          apply h0
+          have hz := sumOf_eq_zero _ _ hc
+          have : ∀ x ∈ s.queue, (fun x : QItem => wP a g x.probe) x ≤ (fun _ => 0) x := by
+            intro x hx
+            have := hz x hx
+            show wP a g x.probe ≤ 0
+            unfold cP at this
+            unfold wP
+            split
+            · rename_i hh; rw [if_pos hh] at this; omega
+            · exact Nat.le_refl _
+          have h' := sumOf_le _ _ _ this
+          have := sumOf_zero s.queue
+          unfold pot; omega
+        · omega
+      omega
+
+/-- the potential is at most `maxRetries + 1` per queued probe for `(a, g)` (for probes with a non-negative retry count
+and a budget of at most `m`) -/
+theorem pot_le (a : Addr) (g : Goal) (m : Int) (q : List QItem)
+    (h : ∀ x ∈ q, x.probe.addr = a → x.probe.goal = g → 0 ≤ x.probe.retries ∧ x.probe.maxRetries ≤ m) :
+    pot a g q ≤ cnt a g q * (m.toNat + 1) := by
+  induction q with
+  | nil => simp [pot, cnt, sumOf_nil]
+  | cons x t ih =>
+    have ih' := ih (fun y hy => h y (List.mem_cons_of_mem _ hy))
+    unfold pot cnt at ih' ⊢
+    rw [sumOf_cons, sumOf_cons, Nat.add_mul]
+    have hx := h x List.mem_cons_self
+    have : wP a g x.probe ≤ cP a g x.probe * (m.toNat + 1) := by
+      unfold wP cP forAG
+      split
+      · rename_i hh
+        have hh' : x.probe.addr = a ∧ x.probe.goal = g := by simpa using hh
+        have := hx hh'.1 hh'.2
+        simp only [budget, Nat.one_mul]; omega
+      · simp
+    omega
+
+/-- **one handled probe, seen from its mark**: in a well-keyed store where the server of the probe is stored, a fault-free
+`probeserver.Execute` for `prb` either CLEARS the retry mark of the probe's goal on that server (a success, or a
+failure with no retry left) leaving the queue alone, or (failure with retries left) appends to the queue the same probe
+with `retries + 1`, non-expiring, ready after the backoff `⌊e^(retries+1)⌋` seconds. -/
+theorem probe_step_progress (prb : Probe) (oc : Option ProbeResult) (s : AbsState) (now : Int) (hko : KeyedOk s)
+    (ex : SRow) (hrow : s.servers[prb.addr.key]? = some ex) :
+    ((oc ≠ none ∨ prb.retries ≥ prb.maxRetries) ∧ ((UC.probe prb oc).run s now).1.queue = s.queue ∧
+      ∀ row, ((UC.probe prb oc).run s now).1.servers[prb.addr.key]? = some row →
+        Status.has row.svr.status (retryMark prb.goal) = false) ∨
+    (oc = none ∧ prb.retries < prb.maxRetries ∧
+      ((UC.probe prb oc).run s now).1.queue =
+        s.queue ++ [⟨s.nextId, { prb with retries := prb.retries + 1 }, now + second * expFloor (prb.retries + 1), none⟩]) := by
+  have hk : Keyed s := fun k row h => (hko k row h).1
+  have hkey := hk _ _ hrow
+  rcases probe_run_queue prb oc s now with ⟨hq, hn⟩ | ⟨ho, hlt, _, hq, _⟩
+  · cases oc with
+    | some res =>
+      refine Or.inl ⟨Or.inl (by simp), hq, fun row hr => ?_⟩
+      rw [probe_run_success _ _ _ _ ex hrow hk] at hr
+      have hkey' : (handleSuccess prb.goal res now ex.svr).addr.key = prb.addr.key := by rw [handleSuccess_addr]; exact hkey
+      rw [← hkey', save_row] at hr
+      cases hr
+      show Status.has (handleSuccess prb.goal res now ex.svr).status (retryMark prb.goal) = false
+      rw [handleSuccess_status]
+      exact unmark_success _ _
+    | none =>
+      by_cases hout : prb.retries < prb.maxRetries
+      · -- a retry advances the id counter: the first alternative of `probe_run_queue` is impossible
+        exfalso
+        have hout' : ¬ prb.retries ≥ prb.maxRetries := by omega
+        have hg : s.getRow prb.addr = some ex := hrow
+        have : ((UC.probe prb none).run s now).1.nextId = s.nextId + 1 := by
+          simp only [UC.probe, Prog.run_call, Call.exec, AbsState.get, hg, probeRetry, Probe.incRetries, hout', if_false,
+            Bool.not_true]
+          simp only [Bool.false_eq_true, if_false, Prog.run_call, Call.exec]
+          split <;> simp only [Prog.run_pure, update_nextId, AbsState.enqueue, Bool.false_eq_true, if_false]
+        omega
+      · refine Or.inl ⟨Or.inr (by omega), hq, fun row hr => ?_⟩
+        rw [probe_run_fail _ _ _ ex hrow hk (by omega)] at hr
+        have hkey' : (handleFailure prb.goal ex.svr).addr.key = prb.addr.key := hkey
+        rw [← hkey', save_row] at hr
+        cases hr
+        exact unmark_failure _ _
+  · exact Or.inr ⟨ho, hlt, hq⟩
+
+end Swat4.C16.Progress
+
+namespace Swat4.C16
+open Swat4 Swat4.UC Std Strict Progress
+
+/-- **C16 (progress surrogate — "always eventually probed again" has no liveness theorem; this is what can be said of
+the prober batches alone).**  Fix a server address `a` (valid port) and a goal `g`.  Start from any store that is
+`BackedStrict`, well keyed with valid addresses and has a well-formed queue (`Progress.WF`), and run any sequence `bs`
+of fault-free prober batches (`PopMany(n)`, then `probeserver.Execute` for every popped probe, any outcome per probe),
+nothing else writing in between.  Scheduling hypotheses, per batch (`Progress.Fair`, checked in the state the batch
+starts from): `0 < n`; at most `n` items are ready at the batch's clock (the pop takes all of them); the runner handles
+the batch in some permutation of it; every queued probe for `(a, g)` is ready at the batch's clock (the clock is past
+its backoff).  Then, with `pot` = the attempts all queued probes for `(a, g)` still have together
+(`Σ (maxRetries − retries) + 1`):
+
+1. if `a` is stored and carries the retry mark of `g`, a probe for `(a, g)` is queued: `pot > 0` (this is `BackedStrict`);
+2. the invariants hold again after the batches, and every batch that finds a probe for `(a, g)` queued pays at least one
+   attempt: `pot` after `bs` is at most `pot − |bs|`;
+3. hence once `|bs| ≥ pot` — for a single queued probe with `retries = 0` that is `maxRetries + 1` batches
+   (`Progress.pot_le`) — NO probe for `(a, g)` is queued any more and `a`, if still stored, does NOT carry the mark:
+   every chain of retries ends, with the mark cleared by a success or by the final failure
+   (`Progress.probe_step_progress` says which, probe by probe).
+
+What this does not say: that such batches are ever run (the prober's ticker and the clock are outside the model), and
+nothing about marks whose probe a crashed prober held (`C16_holder_counterexample`). -/
+theorem probe_progress (a : Addr) (g : Goal) (ha : a.PortOk) (s : AbsState) (hwf : Progress.WF s)
+    (bs : List Progress.Batch) (hfair : Progress.FairRun a g bs s) :
+    (∀ row, s.servers[a.key]? = some row → Status.has row.svr.status (retryMark g) = true → 0 < Progress.pot a g s.queue) ∧
+    Progress.WF (Progress.runBatches bs s) ∧
+    Progress.pot a g (Progress.runBatches bs s).queue ≤ Progress.pot a g s.queue - bs.length ∧
+    (Progress.pot a g s.queue ≤ bs.length →
+      (∀ x ∈ (Progress.runBatches bs s).queue, ¬ (x.probe.addr = a ∧ x.probe.goal = g)) ∧
+      ∀ row, (Progress.runBatches bs s).servers[a.key]? = some row → Status.has row.svr.status (retryMark g) = false) := by
+  have canon : ∀ (t : AbsState), Progress.WF t → ∀ row, t.servers[a.key]? = some row →
+      Status.has row.svr.status (retryMark g) = true → ∃ q ∈ t.queue, q.probe.addr = a ∧ q.probe.goal = g := by
+    intro t ht row hrow hm
+    obtain ⟨q, hq, _, hqa, hqg⟩ := ht.backed _ row g hrow hm
+    have hr := ht.keyed _ row hrow
+    have : row.svr.addr = a := Addr.key_inj hr.2 ha hr.1
+    exact ⟨q, hq, hqa.trans this, hqg⟩
+  obtain ⟨h1, h2⟩ := Progress.runBatches_pot a g bs s hwf hfair
+  refine ⟨fun row hrow hm => ?_, h1, h2, fun hle => ?_⟩
+  · obtain ⟨q, hq, hqa, hqg⟩ := canon s hwf row hrow hm
+    refine Progress.sumOf_pos _ _ q hq ?_
+    simp only [Progress.wP, Progress.forAG, hqa, hqg, and_self, decide_true, if_true, Progress.budget]
+    omega
+  · have hz : Progress.pot a g (Progress.runBatches bs s).queue = 0 := by omega
+    have hnone := Progress.pot_zero_iff_none a g _ hz
+    refine ⟨hnone, fun row hrow => ?_⟩
+    cases hm : Status.has row.svr.status (retryMark g) with
+    | false => rfl
+    | true =>
+      obtain ⟨q, hq, hqa, hqg⟩ := canon _ h1 row hrow hm
+      exact absurd ⟨hqa, hqg⟩ (hnone q hq)
+
+/-- the three batches of the example: batch size 5, every probe fails, handled in pop order, at clocks 1000,
+3·10⁹ and 2·10¹⁰ (past the backoffs `2 s` and `7 s` of the re-queued probes) -/
+def W.progressBatches : List Progress.Batch :=
+  [⟨5, fun _ => none, id, 1000⟩, ⟨5, fun _ => none, id, 3000000000⟩, ⟨5, fun _ => none, id, 20000000000⟩]
+
+/-- non-vacuity of `probe_progress`: `W.staleState` (A marked `port_retry`, its probe with `retries = 0`,
+`maxRetries = 2` queued: potential 3) satisfies `Progress.WF`; the three failing batches are `Fair`; and the conclusion
+is what the model computes: after them the queue is empty and A no longer carries `port_retry` (it carries `no_port`:
+the final failure).  After two batches the mark is still there, backed by the probe with `retries = 2`. -/
+example : Progress.WF W.staleState ∧ Progress.FairRun W.A .port W.progressBatches W.staleState ∧
+    Progress.pot W.A .port W.staleState.queue = 3 ∧
+    (Progress.runBatches W.progressBatches W.staleState).queue = [] ∧
+    ((Progress.runBatches W.progressBatches W.staleState).servers[W.A.key]?).map
+      (fun row => (Status.has row.svr.status Status.portRetry, Status.has row.svr.status Status.noPort)) = some (false, true) ∧
+    (Progress.runBatches (W.progressBatches.take 2) W.staleState).queue.map (fun q => (q.id, q.probe.retries, q.ready, q.expires)) =
+      [(2, 2, 10000000000, none)] ∧
+    ((Progress.runBatches (W.progressBatches.take 2) W.staleState).servers[W.A.key]?).map
+      (fun row => Status.has row.svr.status Status.portRetry) = some true := by
+  have hq1 : (Progress.Batch.run ⟨5, fun _ => none, id, 1000⟩ W.staleState).queue =
+      [⟨1, ⟨W.A, 10480, .port, 1, 2⟩, 2000001000, none⟩] := by decide
+  have hq2 : (Progress.Batch.run ⟨5, fun _ => none, id, 3000000000⟩
+      (Progress.Batch.run ⟨5, fun _ => none, id, 1000⟩ W.staleState)).queue =
+      [⟨2, ⟨W.A, 10480, .port, 2, 2⟩, 10000000000, none⟩] := by decide
+  refine ⟨⟨?_, ?_, ?_, ?_, ?_⟩, ⟨⟨by decide, by decide, fun _ => List.Perm.refl _, ?_⟩,
+    ⟨by decide, by rw [hq1]; decide, fun _ => List.Perm.refl _, ?_⟩,
+    ⟨by decide, by rw [hq2]; decide, fun _ => List.Perm.refl _, ?_⟩, trivial⟩, by decide, by decide, by decide, by decide, by decide⟩
+  · rw [← Strict.backedStrictB_iff]; decide
+  · intro k row h
+    obtain ⟨rfl, rfl⟩ := W.state_row k row h
+    exact ⟨rfl, by unfold Addr.PortOk; decide⟩
+  · exact Strict.idInj_of_nodup (by decide)
+  · intro x hx
+    have : x = ⟨0, W.probe, 0, none⟩ := by simpa [W.staleState] using hx
+    subst this; decide
+  · intro x hx
+    have : x = ⟨0, W.probe, 0, none⟩ := by simpa [W.staleState] using hx
+    subst this
+    unfold Addr.PortOk; decide
+  · intro x hx _ _
+    have : x = ⟨0, W.probe, 0, none⟩ := by simpa [W.staleState] using hx
+    subst this; decide
+  · intro x hx _ _
+    rw [hq1] at hx
+    rw [List.mem_singleton.1 hx]; decide
+  · intro x hx _ _
+    rw [hq2] at hx
+    rw [List.mem_singleton.1 hx]; decide
+
+end Swat4.C16
